@@ -34,7 +34,7 @@ func runBubble(out *Outcome, fn func()) {
 	runtime.GC() // no collection may be in flight when the run starts
 	gcOld := debug.SetGCPercent(-1)
 	// ... except as a safety valve: a run that produces gigabytes of garbage is collected
-	memOld := debug.SetMemoryLimit(3 << 30)
+	memOld := debug.SetMemoryLimit(1 << 30)
 	defer func() {
 		debug.SetGCPercent(gcOld)
 		debug.SetMemoryLimit(memOld)
